@@ -171,6 +171,8 @@ def units_for(prop, tier, gdir):
                     continue  # 15-minute budget of a quick check: the range forms the statement is about; all of them in thorough
                 notes['functions'].append('%s__%s' % (cn, op[0]))
                 for u in rel_units(cn, op, sp, infos, gen, tier, ttl_positive_only=True):
+                    if tier == 'quick' and (u.rlen == 3 or (cn in ('tlru_cache', 'utlru_cache', 'lfuda_cache') and op[0].startswith('insert'))):
+                        continue  # 15-minute budget (cold C09 measured 677 s with them): these stay in C18's quick check and in this property's thorough check
                     u.also_for = prop
                     units.append(u)
     # route U: unbounded-capacity units (cbmc --z3) for the containers that have them; the quick tier runs the
